@@ -303,6 +303,19 @@ pub(crate) struct SessionView {
     pub(crate) dynamic: bool,
 }
 
+/// a loopback address of its own for every listener (127.160.0.0/11): the ephemeral ports of
+/// 127.0.0.1, which the repository's own tests use, are left alone, and sockets in TIME_WAIT
+/// from earlier cases never stand in the way
+fn fresh_listen_addr() -> SocketAddr {
+    static N: std::sync::atomic::AtomicU32 = std::sync::atomic::AtomicU32::new(0);
+    let mut n = N.fetch_add(1, Ordering::Relaxed);
+    if n == 0 {
+        n = std::process::id().wrapping_mul(7919);
+        N.store(n.wrapping_add(1), Ordering::Relaxed);
+    }
+    SocketAddr::new(IpAddr::V4(Ipv4Addr::new(127, 160 + ((n >> 16) & 0x1f) as u8, (n >> 8) as u8, 1 + (n % 254) as u8)), 0)
+}
+
 pub(crate) struct AdmitRig {
     pub(crate) global: GlobalHandle,
     pub(crate) tables: TableHandle,
@@ -324,7 +337,7 @@ impl AdmitRig {
         g.asn = asn;
         g.router_id = Ipv4Addr::new(1, 0, 0, 1);
         g.confederation = confederation.map(|(id, members)| ConfederationConfig { id, members: members.into_iter().collect() });
-        let listener = tokio::net::TcpListener::bind("127.0.0.1:0").await.map_err(|e| e.to_string())?;
+        let listener = tokio::net::TcpListener::bind(fresh_listen_addr()).await.map_err(|e| e.to_string())?;
         let (active_tx, active_rx) = mpsc::unbounded_channel();
         Ok(AdmitRig { global: Arc::new(tokio::sync::RwLock::new(g)), tables: Arc::new(TableManager::new(1)), listener, active_tx, _active_rx: active_rx })
     }
@@ -449,7 +462,7 @@ impl AdmitRig {
     /// pending lets the runtime advance the clock
     pub(crate) async fn connect_now(&self, src: IpAddr, active: bool) -> Result<(Option<SessionView>, Conn), String> {
         let e = |e: std::io::Error| e.to_string();
-        let l = std::net::TcpListener::bind("127.0.0.1:0").map_err(e)?;
+        let l = std::net::TcpListener::bind(fresh_listen_addr()).map_err(e)?;
         let dst = l.local_addr().map_err(e)?;
         let s = socket2::Socket::new(socket2::Domain::IPV4, socket2::Type::STREAM, None).map_err(e)?;
         s.bind(&SocketAddr::new(src, 0).into()).map_err(|x| format!("bind {src}: {x}"))?;
